@@ -35,6 +35,7 @@ type Request struct {
 	Target     string   `json:"target"` // fingerprint to preserve while shrinking
 	Trace      bool     `json:"trace"`
 	ListHashes bool     `json:"list_hashes"`
+	Property   string   `json:"property"` // violations of other properties are recorded but never stop the batch
 }
 
 type ViolationOut struct {
@@ -42,6 +43,7 @@ type ViolationOut struct {
 	Property    string   `json:"property"`
 	Oracle      string   `json:"oracle"`
 	Fingerprint string   `json:"fingerprint"`
+	Class       string   `json:"class"`
 	Message     string   `json:"message"`
 	Step        int      `json:"step"`
 	Outcome     string   `json:"outcome"`
@@ -169,7 +171,10 @@ func traceStrings(res *simrt.Result, names func(int) string) []string {
 }
 
 func violOut(run int, res *netpoll.SimResult, v simrt.Violation) ViolationOut {
-	return ViolationOut{Run: run, Property: v.Property, Oracle: v.Oracle, Fingerprint: v.Fingerprint, Message: v.Message, Step: v.Step,
+	if v.Class == "" {
+		v.Class = v.Fingerprint
+	}
+	return ViolationOut{Run: run, Property: v.Property, Oracle: v.Oracle, Fingerprint: v.Fingerprint, Class: v.Class, Message: v.Message, Step: v.Step,
 		Outcome: res.Outcome, Summary: res.Summary, TapeS: res.TapeS, TapeW: res.TapeW, Log: res.Log, Faults: res.Faults.Map(), Steps: res.Steps,
 		Trace: traceStrings(res.Result, nil)}
 }
@@ -196,6 +201,23 @@ func TestSim(t *testing.T) {
 		doReplay(t, &req, resp)
 	case "shrink":
 		doShrink(t, &req, resp)
+	case "debug":
+		sh := strHash(req.Scenario)
+		cfg, pname := policyFor(req.Seed, req.Start)
+		cfg.SeedS = mix(req.Seed, sh, uint64(req.Start), 1)
+		cfg.SeedW = mix(req.Seed, sh, uint64(req.Start), 2)
+		cfg.KeepTrace = true
+		res, herr := runOnce(t, req.Scenario, cfg)
+		if herr != "" {
+			resp.HarnessError = append(resp.HarnessError, herr)
+			break
+		}
+		v := simrt.Violation{Message: "(debug run, policy " + pname + ") blocked=" + fmt.Sprint(res.Blocked) + " leaked=" + fmt.Sprint(res.Leaked)}
+		if len(res.Violations) > 0 {
+			v = res.Violations[0]
+		}
+		resp.Violations = append(resp.Violations, violOut(req.Start, res, v))
+		resp.Outcomes[res.Outcome]++
 	default:
 		doRuns(t, &req, resp, start)
 	}
@@ -251,7 +273,7 @@ func doRuns(t *testing.T, req *Request, resp *Response, start time.Time) {
 			traces[res.TraceHash] = true
 			states[strHash(res.State)] = true
 		}
-		if len(resp.Samples) < 3 {
+		if len(resp.Samples) < 3 || (res.Outcome != "ok" && len(resp.Samples) < 8) {
 			resp.Samples = append(resp.Samples, Sample{Run: run, Summary: res.Summary, Outcome: res.Outcome, Steps: res.Steps, Policy: pname})
 		}
 		switch res.Outcome {
@@ -262,11 +284,21 @@ func doRuns(t *testing.T, req *Request, resp *Response, start time.Time) {
 		}
 		if len(res.Violations) > 0 {
 			v := res.Violations[0]
-			if !seenFP[v.Fingerprint] {
-				seenFP[v.Fingerprint] = true
+			cl := v.Class
+			if cl == "" {
+				cl = v.Fingerprint
+			}
+			if !seenFP[cl] {
+				seenFP[cl] = true
 				resp.Violations = append(resp.Violations, violOut(run, res, v))
 			}
-			if len(seenFP) >= req.MaxViol {
+			own := 0
+			for _, vv := range resp.Violations {
+				if req.Property == "" || vv.Property == req.Property {
+					own++
+				}
+			}
+			if own >= req.MaxViol {
 				break
 			}
 			continue
@@ -341,7 +373,7 @@ func doShrink(t *testing.T, req *Request, resp *Response) {
 			return false
 		}
 		for _, v := range res.Violations {
-			if v.Fingerprint == req.Target {
+			if v.Fingerprint == req.Target || v.Class == req.Target {
 				last = res
 				return true
 			}
@@ -422,12 +454,25 @@ func doShrink(t *testing.T, req *Request, resp *Response) {
 			}
 		}
 		W = trimZeros(W)
+		// 4. delete chunks of W (drops whole generated operations)
+		for _, sz := range []int{8, 4, 2, 1} {
+			for i := 0; i+sz <= len(W); {
+				c := append(append([]uint32(nil), W[:i]...), W[i+sz:]...)
+				if try(S, c) {
+					W = c
+					improved = true
+				} else {
+					i++
+				}
+			}
+		}
+		W = trimZeros(W)
 	}
 	// final confirmation with a trace
 	r := *req
 	r.Trace = true
 	res, herr := runOnce(t, req.Scenario, replayCfg(&r, S, W))
-	if herr != "" || res == nil || len(res.Violations) == 0 || res.Violations[0].Fingerprint != req.Target {
+	if herr != "" || res == nil || len(res.Violations) == 0 || (res.Violations[0].Fingerprint != req.Target && res.Violations[0].Class != req.Target) {
 		resp.HarnessError = append(resp.HarnessError, "shrink: minimised tapes do not reproduce: "+herr)
 		return
 	}
